@@ -17,13 +17,24 @@ RULES = {
 }
 
 
-def fold_check(chk, rule, site, qn, dim_expr, base_name, what, use_axis_to_dim=False):
+def fold_check(chk, rule, site, qn, dim_expr, base_name, what, use_axis_to_dim=False, path=None):
     bad = []
     n = 0
     for ndim in (1, 2, 3, 4):
         for axis in (0, -1):
             if ndim == 1:
                 continue  # per-axis quantization of a vector is rejected
+            # only the (ndim, axis) instances that can take this path
+            feasible = True
+            for c, truth, _ in (path.conds if path is not None else []):
+                try:
+                    v = scales.fold_dims(c, ndim, axis, base_name)
+                except (AnalysisError, Exception):
+                    continue
+                if isinstance(v, bool) and v != truth:
+                    feasible = False
+            if not feasible:
+                continue
             try:
                 if use_axis_to_dim:
                     got = scales.axis_to_dim_eval(chk.repo, ndim, axis)
@@ -86,7 +97,7 @@ def run(chk):
             if r.dim is None:
                 chk.bad("C03.R1", site, qn, "per-axis reduction without dim", f"{qn}: per-axis path reduces over everything", "per-axis weights get one scale: rows of small magnitude lose precision")
             else:
-                fold_check(chk, "C03.R1", site, qn, r.dim, b, "symmetric")
+                fold_check(chk, "C03.R1", site, qn, r.dim, b, "symmetric", path=p)
         # divisor vs clamp bound for every 8-bit qtype
         for name, rec in sorted(table.items()):
             if rec["bits"] != 8 or name == "qfloat8":
@@ -137,7 +148,7 @@ def run(chk):
             chk.require("C03.R2", site, same, f"{aqn}: amin and amax over the same dims of `{ab}`", aqn, "amin/amax agree", "groups: minimum and maximum taken over different elements")
             chk.require("C03.R1", site, rs[0].keepdim == "True" and rs[1].keepdim == "True", f"{aqn}: keepdim=True", aqn, "keepdim", "scale shape")
             if rs[0].dim is not None:
-                fold_check(chk, "C03.R1", site, aqn, rs[0].dim, ab, "affine")
+                fold_check(chk, "C03.R1", site, aqn, rs[0].dim, ab, "affine", path=p)
         span = e.elts[0].right
         vals = {nb: fold_int(span, {abits: nb}) for nb in (2, 4)}
         chk.require("C03.R3", site, all(vals[nb] == 2 ** nb - 1 for nb in (2, 4)), f"{aqn}: divides the range by `{U(span)[:40]}` = 2**bits - 1 ({vals}) = the clamp span of the affine quantizer", aqn, "affine divisor", "int2/int4 weights: the step is not (hi - lo)/(2**bits - 1)")
@@ -166,7 +177,7 @@ def run(chk):
             if uses_helper:
                 fold_check(chk, "C03.R1", site, "absmax_scale/axis_to_dim", r.dim, base_a, "absmax", use_axis_to_dim=True)
             else:
-                fold_check(chk, "C03.R1", site, "absmax_scale", r.dim, base_a, "absmax")
+                fold_check(chk, "C03.R1", site, "absmax_scale", r.dim, base_a, "absmax", path=p)
             chk.require("C03.R1", site, r.keepdim == "True", "absmax_scale: keepdim=True", "absmax_scale", "keepdim", "scale shape")
         q = scales.storage_max_of(inline(repo, mi_a, e.right))
         chk.require("C03.R3", site, q == f"{qt_a}.dtype" and isinstance(e.right, ast.Attribute) and e.right.attr == "max", f"absmax_scale divides by the storage maximum of {qt_a}.dtype", "absmax_scale", "absmax divisor", "activations of a float8 qtype: range not used / saturation")
